@@ -25,7 +25,7 @@ def units(tier):
 def runner_tasks(tier):
     return [{"module": "c11", "task": "pairs", "kind": "bounded", "clause": "mix_by_weight / mix_by_volume calls"},
             {"module": "c11", "task": "strings", "kind": "bounded", "clause": "string forms, units, nesting, repeated groups"},
-            {"module": "stateful", "task": "C11", "name": "stateful", "kind": "bounded", "clause": "series of mixtures from the same component objects; '( mixture )@dn'"}]
+            {"module": "stateful", "task": "C11", "name": "stateful", "kind": "bounded", "clause": "series of mixtures from the same component objects; '( mixture )@dn'; bare % before symbols that begin like a keyword; stated amounts kept with name=/density="}]
 
 
 REPLAY = {"module": "c11", "task": "replay"}
